@@ -49,7 +49,7 @@ pub(crate) mod kani_verif {
     fn c08_seed_derive_n32() {
         check_seed_derive::<32>();
     }
-    // @h props=C08,C09,C03 tier=quick kind=proved funcs=SeedDerive::seed_derive contract="same, n=24"
+    // @h props=C08,C09!,C03 tier=quick kind=proved funcs=SeedDerive::seed_derive contract="same, n=24"
     #[kani::proof]
     #[kani::stub(zeroize::optimization_barrier, no_barrier)]
     #[kani::stub(<[u8; 32] as tinyvec::Array>::default, fast_default)]
